@@ -148,6 +148,14 @@ impl Run {
         }
     }
 
+    pub fn merge_maxes(&self, local: &BTreeMap<&'static str, u64>) {
+        let mut c = self.counters.lock().unwrap();
+        for (k, v) in local {
+            let e = c.entry((*k).to_string()).or_insert(0);
+            *e = (*e).max(*v);
+        }
+    }
+
     pub fn get(&self, counter: &str) -> u64 {
         self.counters.lock().unwrap().get(counter).copied().unwrap_or(0)
     }
